@@ -215,7 +215,10 @@ def valid_server_name(config: Config, request: "Request") -> bool:
     host = ""
     for name, value in request.headers:
         if name.lower() == b"host":
-            host = value.decode()
+            try:
+                host = value.decode()
+            except UnicodeDecodeError:
+                return False  # Cannot be one of the (str) server names
             break
     return host in config.server_names
 
